@@ -19,7 +19,12 @@ pub trait RenameExt {
 impl RenameExt for String {
     fn to_camel_case(&self) -> String {
         let pascal = self.to_pascal_case();
-        pascal[..1].to_ascii_lowercase() + &pascal[1..]
+        // `pascal` may be empty (`__`) or start with a multi-byte character (`é`)
+        let mut chars = pascal.chars();
+        match chars.next() {
+            Some(first) => first.to_ascii_lowercase().to_string() + chars.as_str(),
+            None => pascal,
+        }
     }
 
     fn to_pascal_case(&self) -> String {
